@@ -169,7 +169,7 @@ func conform(ms *spec.Msg, obj types.Object, ot types.ObjectType, path string, o
 			}
 		}
 	}
-	if ms.Empty {
+	if ms.Placeholder {
 		// placeholder attribute
 		if av, ok := obj.Attrs["active"]; !ok || av == nil {
 			*out = append(*out, problem{fp: "attr-absent/placeholder", path: path + ".active", msg: "placeholder attribute not present"})
